@@ -12,6 +12,7 @@ from collections.abc import Callable
 from collections.abc import Iterable
 from collections.abc import Iterator
 from collections.abc import Sequence
+from contextlib import suppress
 from functools import partial
 from threading import Lock
 from typing import TYPE_CHECKING
@@ -238,11 +239,15 @@ class Group:
 
             def join_wait(gw: Gateway) -> None:
                 gw.join()
-                gw._io.wait()
+                # a proxied gateway is waited for (and killed) through the
+                # gateway it runs behind: nothing to do if that one is gone
+                with suppress(*((OSError,) if gw.spec.via else ())):
+                    gw._io.wait()
 
             def kill(gw: Gateway) -> None:
                 trace("Gateways did not come down after timeout: %r" % gw)
-                gw._io.kill()
+                with suppress(*((OSError,) if gw.spec.via else ())):
+                    gw._io.kill()
 
             safe_terminate(
                 self.execmodel,
